@@ -90,6 +90,14 @@ def check(cx):
             continue
         inv = [c for c in f.calls() if c.callee.endswith("Instr::inverse")]
         news = [c for c in f.calls() if c.callee in ("runtime::ddl::DropTableInstr::new", "runtime::ddl::DropIndexInstr::new")]
+        if not news:
+            # built by a helper of this file that the handler reaches through a closure / combinator (`.map(|o| o.into_drop(id))`)
+            others_ = {RECUP + "::" + n_ for n_ in ("redo_create", "undo_create", "redo_drop", "undo_drop", "redo_alter", "undo_alter")} - {f.id}
+            for x in sorted(p.reach_forward([f.id], stop=others_)):
+                h_ = p.raw_fns.get(x)
+                if h_ is not None and x != f.id and h_.file == f.file:
+                    inv += [c for c in h_.calls() if c.callee.endswith("Instr::inverse")]
+                    news += [c for c in h_.calls() if c.callee in ("runtime::ddl::DropTableInstr::new", "runtime::ddl::DropIndexInstr::new")]
         cx.verdict(not inv, r5, name + ":no-inverse", f.where(), "no statement-level inverse()",
                    "%s builds its DROP with inverse() (if_exists = false): redoing/undoing on an object that is "
                    "already gone makes Database::open fail" % name)
@@ -291,6 +299,26 @@ def check(cx):
                                "the statement serialises %s into %s.%s()" % (sorted(W.get((rec, slot), ())), rec.rsplit("::", 1)[-1], slot),
                                "%s decodes a %s from %s.%s(), where the statement puts %s: the decode fails, the handler returns Ok and the "
                                "logged operation is never replayed" % (g.name, ty, rec.rsplit("::", 1)[-1], slot, sorted(W.get((rec, slot), ())) or "nothing"))
+            if n_dec == 0:
+                # the decoding may be handed to combinators (`non_empty(op.undo()).and_then(LoggedObject::decode)`): the decoders the
+                # handler reaches inside this file decode the one slot the handler reads
+                slots_read = {c.callee.rsplit("::", 1)[-1] for m_ in K.family(p, g) for c in m_.calls()
+                              if c.callee.rsplit("::", 1)[-1] in ("undo", "redo") and "Operation" in c.callee}
+                local = [p.raw_fns[x] for x in p.reach_forward([g.id], stop={h_.id for h_ in handlers if h_.id != g.id})
+                         if x in p.raw_fns and x != g.id and p.raw_fns[x].file == g.file and p.raw_fns[x].impl_adt != "runtime::ddl::DdlExecutor"]
+                decs = sorted({c.callee[:-len("::from_bytes")].rsplit("::", 1)[-1].strip("<>") for h_ in local for c in h_.calls()
+                               if c.callee.endswith("::from_bytes")} & types_written)
+                if len(slots_read) == 1 and decs:
+                    slot = next(iter(slots_read))
+                    other = "redo" if slot == "undo" else "undo"
+                    for ty in decs:
+                        if ty not in W.get((rec, slot), ()) and ty not in W.get((rec, other), ()):
+                            continue
+                        n_dec += 1
+                        cx.verdict(ty in W.get((rec, slot), ()), r13, "%s:%s<-%s" % (g.name, ty, slot), g.where(),
+                                   "the statement serialises %s into %s.%s() (decoded by a helper the handler reaches)" % (sorted(W.get((rec, slot), ())), rec.rsplit("::", 1)[-1], slot),
+                                   "%s decodes a %s from %s.%s(), where the statement puts %s: the decode fails, the handler returns Ok and the "
+                                   "logged operation is never replayed" % (g.name, ty, rec.rsplit("::", 1)[-1], slot, sorted(W.get((rec, slot), ())) or "nothing"))
             if n_dec == 0:
                 cx.bad(r13, g.name + ":no-decode", g.where(), "%s decodes no instruction from its record's undo()/redo() payload" % g.name)
     except AnchorMissing as e:
